@@ -187,9 +187,12 @@ CHECKS = {
         "Coq proof (totality and non-negativity of the parser for every character-class string and every answer of the date oracle; integer / date / garbage cases; attribute-before-headers; composition with retry_after_or and the retry loop's clamp) tied by in-Coq equality with the implementation's answers on generated strings, attribute values and header containers (now() frozen), incl. Python's int() itself against the model's py_int",
         "Theorems C20_parse_total, C20_coerce_total, C20_classifier_total, C20_integer(_general), C20_date_or_garbage, C20_blank, "
         "C20_attribute_first, C20_honoured for the Gallina model of extras/http.py (int() parsing incl. Unicode digits, underscores "
-        "and the 4300-digit limit; int->float rounding and overflow; header lookup order), as repaired by fix commit a10e77c. The "
-        "stdlib HTTP-date parser is an oracle (its answer is universally quantified in the theorems and supplied by the driver in "
-        "the correspondence); that it raises only the three caught exception types is trusted and fuzzed.",
+        "and the 4300-digit limit; int->float rounding and overflow; header lookup order), as repaired by fix commits a10e77c and "
+        "a10a080 (the check demonstrated on the pinned tree that an OverflowError of the stdlib date parser escaped the classifier: "
+        "findings/witness/C20-date-overflow.json). The stdlib HTTP-date parser is an oracle (its answer is universally quantified in "
+        "the theorems and supplied by the driver in the correspondence); which exceptions it raises is not assumed: date-like garbage "
+        "with numeric fields of any size is generated and any exception the code lets through is a violation. Every text is parsed "
+        "twice, 100 s apart, in a process whose local zone is not UTC.",
         "Trusted: Coq kernel + vm_compute; hand-written model RetryAfter.v (tied by correspondence only); retry_after_driver.py "
         "(frozen now, container shapes); character classification by Python's str.isspace/isdecimal in the harness.",
         "DESIGN.md §6 C20",
@@ -254,7 +257,7 @@ def main():
             "observe it through scripted callbacks, spies and a virtual clock; REDRESS_VERIF=1 is exported but unused; "
             "source_commits lists the unguarded `fix:` commits (repairs of genuine defects, see known-findings.txt), not hooks",
             "baseline_off_cmd": "cd /repo && /venv/bin/python -m pytest -ra -q -p no:cacheprovider --timeout=900",
-            "source_commits": ["7959b97", "4805882", "e37d3df", "a10e77c", "7a1aae8", "844555a", "ca75464", "57ff40d", "f52464c"],
+            "source_commits": ["7959b97", "4805882", "e37d3df", "a10e77c", "7a1aae8", "844555a", "ca75464", "57ff40d", "f52464c", "a10a080"],
             "add_only": True,
         },
         "engines": [
